@@ -69,12 +69,12 @@ def configure(prog, rep, tag):
         r = pr.of_operand(c.args[0])
         for fld in ("sync0_period", "start_delay", "sync0_shift"):
             if has_root(r, "field", "DcConfiguration", fld) and b.calls_to("Duration::as_nanos"):
-                tr = q.ok_edge_of_try(b, c)
-                if tr and tr[1] is not None:
-                    checked[fld] = q.edge_dominated(b, tr[0], tr[1])
-                    # target type u32
-                    if "u32" not in b.local_ty(c.dest["l"]):
-                        checked.pop(fld)
+                # blocks that cannot run once this conversion failed (the `?` may sit in a helper and be followed by a
+                # second `?` in this function: feasibility, not dominance)
+                if "u32" in b.local_ty(c.dest["l"]):
+                    bad = q.feasible_after_outcome(b, c, ok=False)
+                    good = q.feasible_after_outcome(b, c, ok=True)
+                    checked[fld] = (set(b.live_blocks()) - bad) & good
     hasdc = q.aggregates(b, "HasDc")
     for fld in ("sync0_period", "start_delay", "sync0_shift"):
         dom = checked.get(fld)
